@@ -880,3 +880,54 @@ def l_c14(it):
         ctx.oblige("lemma/C14/refused-creates-and-modifies-nothing",
                    z3.And(z3.Select(ctx.st.fs, x) == z3.Select(fs0, x), ctx.st.dirs == dirs0),
                    detail=out[1], props=("C14",))
+
+
+@lemma("inv/fresh-store", ("C05", "C04", "C03"))
+def l_inv_fresh(it):
+    """Base case of the history induction: a store created by the constructor on a root that holds
+    no store file satisfies Inv (with empty ghost history sets) and holds no lock."""
+    from contracts import init as I
+    ctx = it.ctx
+    I.yaml_typing(it)
+    ctx.fs0, ctx.dirs0 = ctx.st.fs, ctx.st.dirs
+    fs0 = ctx.st.fs
+    # nothing of a store exists yet (files outside the store root are arbitrary)
+    ctx.assume_forall_loc(lambda x: z3.Implies(T.l_kind(x) != T.K_EXT, T.is_Absent(z3.Select(fs0, x))))
+    ctx.assume_forall_loc(it.lib.typing(ctx.fs0, ctx.dirs0))
+    for c in LOCK_CLASSES:
+        ctx.assume(ctx.st.own[c] == T.NOLOCKS)
+    props = I.props_dict(it, other=False)
+    s = VObj("FileHashStore")
+    ctx.spec_mode += 1
+    try:
+        try:
+            I.init(it, s, props)
+            out = ("return",)
+        except PyRaise as pr:
+            out = ("raise", pr.exc.cls)
+    finally:
+        ctx.spec_mode -= 1
+    if out[0] != "return":
+        ctx.oblige("lemma/fresh-store/refused-constructor-creates-no-store-file",
+                   z3.BoolVal(True), detail=out[1], props=("C05",))
+        x = ctx.skolem_loc()
+        ctx.oblige("lemma/fresh-store/refused-constructor-leaves-the-root-empty",
+                   z3.Select(ctx.st.fs, x) == z3.Select(fs0, x), detail=out[1], props=("C05", "C14"))
+        return
+    gh = {"T": z3.K(T.S, z3.BoolVal(False)), "U": z3.K(T.S, z3.BoolVal(False))}
+    p1, c1 = z3.String("any_pid"), z3.String("any_cid")
+    ctx.assume(T.wsfree(p1))
+    ctx.assume(T.ishex(c1))
+    fs = ctx.st.fs
+    # the location-quantified assumptions are instantiated at the locations Inv talks about
+    for loc in (pidref_loc(s, p1), cidref_loc(c1), obj_loc(c1),
+                cidref_loc(T.as_text(z3.Select(fs, pidref_loc(s, p1))))):
+        it.lib.touch(it, loc)
+    ctx.oblige("lemma/fresh-store/inv-pair", inv_pair(fs, s, p1, c1, gh), props=("C05",))
+    ctx.oblige_forall_loc("lemma/fresh-store/inv-loc", inv_loc(fs), props=("C05",))
+    ctx.oblige("lemma/fresh-store/locks-empty",
+               z3.And(*[ctx.st.own[c] == T.NOLOCKS for c in LOCK_CLASSES]), props=("C05", "C08"))
+    x = ctx.skolem_loc()
+    ctx.oblige("lemma/fresh-store/only-the-configuration-file-is-created",
+               z3.Implies(z3.And(T.l_kind(x) != T.K_YAML, T.l_kind(x) != T.K_EXT),
+                          T.is_Absent(z3.Select(fs, x))), props=("C05", "C14"))
